@@ -6,7 +6,7 @@ package main
 // into a third.  Every backup is restored and projected; one trace line per backup is validated
 // by TraceBackup.tla against the write history (phase C).  Phase B cuts the inter-node backup
 // stream at chosen byte positions (FIN / RST) and records what the HTTP client of the follower
-// saw.
+// saw.  Phase P (backup_pfail.go) makes the producing node fail after streaming has begun.
 
 import (
 	"bytes"
@@ -29,6 +29,7 @@ import (
 	"github.com/rqlite/rqlite/v10/cluster"
 	"github.com/rqlite/rqlite/v10/command/proto"
 	"github.com/rqlite/rqlite/v10/db"
+	"github.com/rqlite/rqlite/v10/internal/vhook"
 	"github.com/rqlite/rqlite/v10/store"
 )
 
@@ -332,6 +333,10 @@ type bkStats struct {
 	DistinctStates, BackupsWithMoves int
 	Rounds                           int
 	Witnesses, WitnessPaused         int
+	PFCases, PFFired, PFNotFired     int            // phase P: producer-failure cases
+	PFOutcomes                       map[string]int // format/compress/via/at/outcome
+	ElapsedP                         float64
+	BadKept                          atomic.Int32 `json:"-"` // bodies + hook events kept of backups that did not restore
 }
 
 func backupTrace(args []string) error {
@@ -345,6 +350,7 @@ func backupTrace(args []string) error {
 	wps := fs.Int("wps", 60, "phase C: target write rate (writes per second over all writers)")
 	secs := fs.Int("secs", 0, "phase C: keep starting rounds until this many seconds have passed (at least 2 rounds, at most -rounds)")
 	fwdTimeout := fs.String("fwdtimeout", "", "timeout= parameter of forwarded backups")
+	pfail := fs.Bool("pfail", true, "phase P: the producing node fails after streaming began (fault points backup.copy, dump.table)")
 	fs.Parse(args)
 	if *base == "" {
 		*base, _ = os.MkdirTemp("", "vbk")
@@ -354,7 +360,7 @@ func backupTrace(args []string) error {
 	if err != nil {
 		return err
 	}
-	st := &bkStats{ByVia: map[string]int{}, CutOutcomes: map[string]int{}, StreamBytes: map[string]int64{}}
+	st := &bkStats{ByVia: map[string]int{}, CutOutcomes: map[string]int{}, StreamBytes: map[string]int64{}, PFOutcomes: map[string]int{}}
 	rng := newRand(21)
 	os.RemoveAll(filepath.Join(*base, "cl")) // a repeated run starts from nothing
 	c, err := newCluster(vClusterOpts{N: 3, Base: filepath.Join(*base, "cl"), Configure: func(s *store.Store) {
@@ -401,6 +407,16 @@ func backupTrace(args []string) error {
 		}
 		initIdx = idx
 		st.ElapsedB = time.Since(t0).Seconds()
+	}
+
+	// ------------------------------------------------------------ phase P: the producer fails
+	if *pfail {
+		tp := time.Now()
+		w.Write(map[string]any{"ev": "reset", "phase": "P"})
+		if err := bkPhaseP(c, w, st, restoreDir, *fwdTimeout); err != nil {
+			return fmt.Errorf("phase P: %w", err)
+		}
+		st.ElapsedP = time.Since(tp).Seconds()
 	}
 
 	// ------------------------------------------------------------ phase C: backups under load
@@ -476,6 +492,12 @@ func backupTrace(args []string) error {
 	}
 	var recs []bkRec
 	var rmu sync.Mutex
+	// diagnostics for a backup that is answered 200 and does not restore: the recent gate / checkpoint events
+	ring := newBkRing(16384)
+	vhook.SetSink(ring.sink)
+	defer vhook.SetSink(nil)
+	var opSeq atomic.Int64
+	badDir := filepath.Join(filepath.Dir(*out), "bad")
 	doBackup := func(cb bkCombo, rg *rand.Rand, conc bool) error {
 		ld := c.Leader(10 * time.Second)
 		if ld == nil {
@@ -500,9 +522,12 @@ func backupTrace(args []string) error {
 		if cb.Via == "follower" {
 			to = *fwdTimeout
 		}
+		seq := opSeq.Add(1)
+		ring.add(map[string]any{"ev": "bk.begin", "seq": seq, "fmt": cb.Fmt, "vacuum": cb.Vacuum, "compress": cb.Compress, "via": cb.Via, "src": src.ID, "start": start})
 		r := bkGet(at, cb.query(to))
 		ms := time.Since(tb).Milliseconds()
 		end, _ := src.Store.CommitIndex()
+		ring.add(map[string]any{"ev": "bk.end", "seq": seq, "status": r.Status, "end": end})
 		ld2 := c.Leader(10 * time.Second)
 		moved := ld2 == nil || ld2.ID != ld.ID || !ld.Store.IsLeader()
 		rec := bkRec{c: cb, start: start, end: end, r: r, ms: ms, moved: moved, bytes: len(r.Body), conc: conc, p: bkProj{NA: -1, NZ: -1, NM: -1}}
@@ -511,6 +536,9 @@ func backupTrace(args []string) error {
 			rec.p = p
 			if rerr != nil {
 				rec.rerr = rerr.Error()
+				if st.BadKept.Add(1) <= 3 {
+					ring.dump(badDir, fmt.Sprintf("bad-seq%d-%s-%s", seq, cb.Fmt, cb.Via), r.Body)
+				}
 			}
 		}
 		if r.Status != 200 {
@@ -566,9 +594,12 @@ func backupTrace(args []string) error {
 		}
 		start := ld.Store.DBAppliedIndex()
 		tb := time.Now()
+		seq := opSeq.Add(1)
+		ring.add(map[string]any{"ev": "bk.begin", "seq": seq, "fmt": format, "via": "leader", "witness": true, "src": ld.ID, "start": start})
 		err := ld.Store.Backup(context.Background(), br, pw)
 		ms := time.Since(tb).Milliseconds()
 		end, _ := ld.Store.CommitIndex()
+		ring.add(map[string]any{"ev": "bk.end", "seq": seq, "err": fmt.Sprint(err), "end": end})
 		ld2 := c.Leader(10 * time.Second)
 		moved := ld2 == nil || ld2.ID != ld.ID || !ld.Store.IsLeader()
 		rec := bkRec{c: bkCombo{Fmt: format, Via: "leader"}, start: start, end: end, ms: ms, moved: moved, bytes: pw.buf.Len(),
@@ -579,6 +610,9 @@ func backupTrace(args []string) error {
 			rec.p = p
 			if rerr != nil {
 				rec.rerr = rerr.Error()
+				if st.BadKept.Add(1) <= 3 {
+					ring.dump(badDir, fmt.Sprintf("bad-seq%d-%s-witness", seq, format), pw.buf.Bytes())
+				}
 			}
 		} else {
 			rec.r = bkResp{Status: 500, Clean: true, Err: err.Error()}
